@@ -173,7 +173,8 @@ Qed.
 (* the key the entry point works with is the given one *)
 Lemma guess_key_same src rnd alg k k' : guess_key src rnd alg k = Ok k' -> k' = k.
 Proof.
-  unfold guess_key, pick_random. destruct src; [intro H; inversion H; reflexivity|].
+  unfold guess_key, pick_random.
+  destruct src; try (intro H; inversion H; reflexivity).
   destruct rnd; [|intro H; inversion H; reflexivity].
   destruct (match find _ _ with Some (_, l) => l | None => [] end);
     [intro H; inversion H; reflexivity|].
@@ -613,6 +614,140 @@ Proof.
   destruct (jwe_is_enc e).
   - apply jwe_encrypt_ok; assumption.
   - inv_bind Hb. apply map_exchange_ok in Hba. apply jwe_decrypt_ok; assumption.
+Qed.
+
+(* ---------- several recipients ---------- *)
+Lemma forall_res_ok {A} (f : A -> res unit) l :
+  forall_res f l = Ok tt -> Forall (fun x => f x = Ok tt) l.
+Proof.
+  induction l as [|a l IH]; simpl; intro H; [constructor|].
+  inv_bind H. constructor; [exact Ha | apply IH; exact Hb].
+Qed.
+
+Lemma enc_pre_post n r en k s :
+  jwe_enc_pre prim n r en k s = Ok tt -> jwe_enc_post prim r en k s = Ok tt ->
+  jwe_encrypt_alg prim r en k s = Ok tt.
+Proof.
+  unfold jwe_enc_pre, jwe_enc_post. destruct (is_agreement r); [intros _ H; exact H|].
+  destruct (ea_direct r && Nat.ltb 1 n); [discriminate | intros H _; exact H].
+Qed.
+
+Definition nek : epk := {| epk_kty := KEc; epk_crv := "" |}.
+
+Lemma with_alg_ok alg f : with_alg alg f = Ok tt ->
+  exists r, In r jwe_alg_table_drafts /\ ea_name r = alg /\ f r = Ok tt.
+Proof.
+  unfold with_alg. destruct (find_jwe alg) as [r|] eqn:F; [|discriminate].
+  apply find_name in F. destruct F as [Hin Hn]. apply String.eqb_eq in Hn. eauto.
+Qed.
+
+Theorem jwe_multi_enc_suitable src enc rs sender :
+  Forall (fun m => key_wf (m_key m)) rs -> (forall s, sender = Some s -> key_wf s) ->
+  jwe_multi_enc prim src enc rs sender = Ok tt ->
+  Forall (fun m => jwe_suitable (m_alg m) true (cek_of enc) (m_key m) sender nek) rs.
+Proof.
+  intros W Ws H. unfold jwe_multi_enc in H. unfold cek_of.
+  destruct (find_enc enc) as [en|] eqn:Fe; [|discriminate].
+  inv_bind H. inv_bind Hb.
+  apply forall_res_ok in Ha, Hba, Hbb.
+  rewrite Forall_forall in *. intros m Hm.
+  specialize (W m Hm). specialize (Ha m Hm). specialize (Hba m Hm). specialize (Hbb m Hm).
+  cbv beta in *.
+  inv_bind Ha. destruct (jwe_attach_ok _ _ _ _ _ _ W Ws Haa) as (_ & U & US).
+  apply with_alg_ok in Hba, Hbb.
+  destruct Hba as (r & Hin & Hn & Hpre). destruct Hbb as (r' & Hin' & Hn' & Hpost).
+  assert (r' = r).
+  { unfold with_alg in *. clear - Hin Hin' Hn Hn'.
+    assert (F : forall a b, In a jwe_alg_table_drafts -> In b jwe_alg_table_drafts ->
+                            ea_name a = ea_name b -> a = b).
+    { intros a b Ia Ib. simpl in Ia, Ib.
+      repeat (destruct Ia as [<- | Ia]; [repeat (destruct Ib as [<- | Ib]; [intro Q; first [reflexivity | discriminate Q]|]); contradiction|]).
+      contradiction. }
+    apply F; congruence. }
+  subst r'. rewrite <- Hn.
+  split; [exact U | split; [exact US|]].
+  apply jwe_encrypt_ok; try assumption. eapply enc_pre_post; eassumption.
+Qed.
+
+Definition dec_good (en : jwe_enc_row) (sender : option key) (m : mrec) : Prop :=
+  exists r, In r jwe_alg_table_drafts /\ ea_name r = m_alg m /\
+            jwe_decrypt_alg prim r en (m_key m) sender (m_epk m) = Ok tt /\ m_mat m = true.
+
+Lemma dec_one_good r en m sender :
+  find_jwe (m_alg m) = Some r -> jwe_dec_one prim r en m sender = Ok tt -> dec_good en sender m.
+Proof.
+  intros F H. apply find_name in F. destruct F as [Hin Hn]. apply String.eqb_eq in Hn.
+  unfold jwe_dec_one in H. inv_bind H. exists r. repeat split; try assumption.
+  destruct (m_mat m); [reflexivity | discriminate Hb].
+Qed.
+
+Lemma dec_loop_all en sender rs got b :
+  dec_loop prim true en sender rs got = Ok b -> Forall (dec_good en sender) rs.
+Proof.
+  revert got. induction rs as [|m rs IH]; simpl; intros got H; [constructor|].
+  destruct (find_jwe (m_alg m)) as [r|] eqn:F; [|discriminate].
+  destruct (jwe_dec_one prim r en m sender) as [[]|e] eqn:D.
+  - constructor; [eapply dec_one_good; eassumption | eapply IH; eassumption].
+  - rewrite andb_false_r in H. discriminate H.
+Qed.
+
+Lemma dec_loop_any va en sender rs got :
+  dec_loop prim va en sender rs got = Ok true -> got = true \/ Exists (dec_good en sender) rs.
+Proof.
+  revert got. induction rs as [|m rs IH]; simpl; intros got H.
+  - left. inversion H. reflexivity.
+  - destruct (find_jwe (m_alg m)) as [r|] eqn:F; [|discriminate].
+    destruct (jwe_dec_one prim r en m sender) as [[]|e] eqn:D.
+    + right. apply Exists_cons_hd. eapply dec_one_good; eassumption.
+    + destruct (swallowed e && negb va); [|discriminate].
+      destruct (IH _ H) as [G | G]; [left; exact G | right; apply Exists_cons_tl; exact G].
+Qed.
+
+Lemma dec_good_suitable enc en sender m :
+  find_enc enc = Some en -> key_wf (m_key m) -> (forall s, sender = Some s -> key_wf s) ->
+  declared_use_ok "enc" (m_key m) -> (forall s, sender = Some s -> declared_use_ok "enc" s) ->
+  dec_good en sender m ->
+  m_mat m = true /\ jwe_suitable (m_alg m) false (cek_of enc) (m_key m) sender (m_epk m).
+Proof.
+  intros Fe W Ws U US (r & Hin & Hn & Hd & Hm). split; [exact Hm|].
+  unfold cek_of. rewrite Fe. rewrite <- Hn.
+  split; [exact U | split; [exact US|]]. apply jwe_decrypt_ok; assumption.
+Qed.
+
+(* decrypt_json on a general JSON serialization: every recipient key (and the sender
+   key) is use-checked whatever verify_all_recipients; the plaintext comes from a
+   recipient whose key is suitable and whose material matches; with
+   verify_all_recipients every recipient key is suitable *)
+Theorem jwe_multi_dec_suitable va src enc rs sender :
+  Forall (fun m => key_wf (m_key m)) rs -> (forall s, sender = Some s -> key_wf s) ->
+  jwe_multi_dec prim va src enc rs sender = Ok tt ->
+  Forall (fun m => declared_use_ok "enc" (m_key m)) rs /\
+  Exists (fun m => m_mat m = true /\
+                   jwe_suitable (m_alg m) false (cek_of enc) (m_key m) sender (m_epk m)) rs /\
+  (va = true ->
+   Forall (fun m => m_mat m = true /\
+                    jwe_suitable (m_alg m) false (cek_of enc) (m_key m) sender (m_epk m)) rs).
+Proof.
+  intros W Ws H. unfold jwe_multi_dec in H.
+  destruct (find_enc enc) as [en|] eqn:Fe; [|discriminate].
+  inv_bind H. apply forall_res_ok in Ha. apply map_exchange_ok in Hb.
+  inv_bind Hb. destruct x; [|discriminate Hbb].
+  assert (A : Forall (fun m => declared_use_ok "enc" (m_key m) /\
+                               (forall s, sender = Some s -> declared_use_ok "enc" s)) rs).
+  { rewrite Forall_forall in *. intros m Hm. specialize (W m Hm). specialize (Ha m Hm).
+    cbv beta in Ha. inv_bind Ha.
+    destruct (jwe_attach_ok _ _ _ _ _ _ W Ws Haa) as (_ & U & US). split; assumption. }
+  assert (G : forall m, In m rs -> dec_good en sender m ->
+              m_mat m = true /\ jwe_suitable (m_alg m) false (cek_of enc) (m_key m) sender (m_epk m)).
+  { intros m Hm Hg. rewrite Forall_forall in W, A. destruct (A m Hm) as [U US].
+    eapply dec_good_suitable; eauto. }
+  split; [|split].
+  - rewrite Forall_forall in *. intros m Hm. exact (proj1 (A m Hm)).
+  - destruct (dec_loop_any _ _ _ _ _ Hba) as [Q | Q]; [discriminate Q|].
+    apply Exists_exists in Q. destruct Q as (m & Hm & Hg). apply Exists_exists.
+    exists m. split; [exact Hm | exact (G m Hm Hg)].
+  - intros ->. apply dec_loop_all in Hba. rewrite Forall_forall in *.
+    intros m Hm. exact (G m Hm (Hba m Hm)).
 Qed.
 
 End JWE.
